@@ -182,6 +182,18 @@ func templateForms() []form {
 		tf("show", "show-short-macro", "{{ P(1) }}"),
 		tf("show", "show-default", "{{ Undef() default M() }}"),
 		tf("show", "show-default-str", "{{ M() default \"d\" }}"),
+		tf("show", "show-default-selector", "{{ q.MM() default \"d\" }}"),
+		tf("show", "show-default-undefined-selector", "{{ und.F() default \"d\" }}"),
+		tf("show", "show-default-paren", "{{ (M)() default \"d\" }}"),
+		tf("show", "show-default-call-call", "{{ M()() default \"d\" }}"),
+		tf("show", "show-default-index", "{{ s[0]() default \"d\" }}"),
+		tf("show", "show-default-funclit", "{{ func() int { return 1 }() default 2 }}"),
+		tf("show", "show-default-conversion", "{{ int(n) default 2 }}"),
+		tf("show", "show-default-builtin", "{{ len(s) default 2 }}"),
+		tf("show", "show-default-method", "{{ x.(error).Error() default \"d\" }}"),
+		tf("show", "show-default-chain", "{{ Undef() default Undef2() default M() }}"),
+		tf("show", "show-default-var", "{% var v = Undef() default M() %}"),
+		tf("show", "show-default-render-selector", "{{ render \"nofile.html\" default q.MM() }}"),
 		tf("show", "show-func", "{{ func() int { return 1 }() }}"),
 		tf("show", "show-nil", "{{ nil }}"),
 		tf("show", "show-attr", "<a href=\"{{ str }}\" title={{ str }} class='{{ n }}'>"),
